@@ -169,17 +169,60 @@ contract("check_run_command_setup", kind="assumed", params=[("cmd", "Opaque"), (
          note="check_run_command(setup_command, env=env): ghost counter of setup executions")
 ghost("last_cmd", "Opaque")
 contract("JobSubmitter._handle_submission_groups", kind="assumed", params=[("self", "Ref[JobSubmitter]")], note="re-reads submission groups from submitter_groups.json")
-contract("JobSubmitter._submit_to_hpc", kind="assumed", params=[("self", "Ref[JobSubmitter]"), ("cluster", "Ref[Cluster]")], returns="bool",
+from pyvc.spec import CONTRACTS as _C
+# ---- the link between the CLI and a submitter round: HpcSubmitter(config, config_file, cluster, output).run() --------------------------------
+# What a round needs from the state loaded from disk (established by Cluster.deserialize / Cluster.create and JobSubmitter.load / create):
+define("MAXN", ["cl"], "(9223372036854775807 if isnone(cl._config.submission_groups[0].submitter_params.max_nodes) "
+                       "else val(cl._config.submission_groups[0].submitter_params.max_nodes))")
+ghost("time_based", "bool")        # some submission group of this submission batches by time (configuration domain, fixed at submission time)
+# ... from the persisted status (Cluster.deserialize / Cluster.create): the invariants every verified writer maintains (C09 J, C06 carry-over) and the
+# group-parameter domain checked when the submission was created (C07/C17)
+define("CLUSTER_READY", ["cl"], """(
+    not isnone(cl._job_status) and J_REST(cl) and len(cl._config.submission_groups) >= 1
+    and len(val(cl._job_status).hpc_job_ids) <= MAXN(cl)
+    and forall(g, cl._config.submission_groups, implies(not g.submitter_params.time_based_batching, g.submitter_params.per_node_batch_size >= 1)
+        and implies(g.submitter_params.time_based_batching, not isnone(g.submitter_params.num_parallel_processes_per_node)
+                    and val(g.submitter_params.num_parallel_processes_per_node) >= 0))
+    and forall(g, cl._config.submission_groups, implies(g.submitter_params.time_based_batching, ghost.time_based))
+    and forall(a, range(len(cl._config.submission_groups)), forall(b, range(a), cl._config.submission_groups[a].name != cl._config.submission_groups[b].name))
+    and subset(nameset(val(cl._job_status).jobs), ghost.universe))""")
+# ... from the configuration (JobSubmitter.load / create): every job of the submission is configured; estimates exist where time-based batching needs them
+define("CONFIG_READY", ["s"], """(
+    forall(x, ghost.universe, known(s, x))
+    and implies(ghost.time_based, forall(x, ghost.universe, not isnone(cfgjob(s, x).estimated_run_minutes) and val(cfgjob(s, x).estimated_run_minutes) >= 0)))""")
+define("ROUND_READY", ["s", "cl"], "CLUSTER_READY(cl) and CONFIG_READY(s)")      # plus J_COUNTS(cl), stated as a clause of its own
+contract("HpcSubmitter.__init__", kind="assumed", fresh_result=True,
+         params=[("config", "Ref[JobConfiguration]"), ("config_file", "Opaque"), ("cluster", "Ref[Cluster]"), ("output", "Opaque")], returns="Ref[HpcSubmitter]",
+         requires=["not isnone(cluster._job_status)", "len(cluster._config.submission_groups) >= 1"],
+         ensures=["result._config == config and result._config_file == config_file and result._cluster == cluster and result._output == output",
+                  "result._batch_index == val(cluster._job_status).batch_index",
+                  "result._max_nodes == MAXN(cluster)",
+                  "result._poll_interval == cluster._config.submission_groups[0].submitter_params.poll_interval"],
+         modifies=["HpcSubmitter._config", "HpcSubmitter._cluster", "HpcSubmitter._batch_index", "HpcSubmitter._config_file", "HpcSubmitter._base_config",
+                   "HpcSubmitter._hpc_mgr", "HpcSubmitter._output", "HpcSubmitter._max_nodes", "HpcSubmitter._poll_interval", "HpcSubmitter._status_collector",
+                   "HpcSubmitter._submission_groups", "HpcManager._output", "HpcManager._hpc_type", "HpcManager._configs", "HpcManager._intfs",
+                   "HpcStatusCollector._hpc_mgr", "HpcStatusCollector._poll_interval", "HpcStatusCollector._last_poll_time", "HpcStatusCollector._statuses"],
+         note="constructor: field assignments; the first group of make_submission_group_lookup(cluster.config.submission_groups) is the first listed group "
+              "(dict insertion order); HpcManager / HpcStatusCollector construction")
+def _run_mods():
+    out = []
+    for m in _C["HpcSubmitter.run"].modifies:
+        if m.startswith("self._cluster."):
+            out.append("cluster." + m[len("self._cluster."):])
+        elif m.startswith("self."):
+            out.append("HpcSubmitter." + m[len("self."):])
+        else:
+            out.append(m)
+    return out
+contract("JobSubmitter._submit_to_hpc", file=F,
+         params=[("self", "Ref[JobSubmitter]"), ("cluster", "Ref[Cluster]")], returns="bool",
+         requires=["not ghost.cluster_lock", "Inv_handle(cluster)", "cluster.g_promoted", "ROUND_READY(self, cluster)", "J_COUNTS(cluster)", "not cluster._config.is_complete"],
          ensures=["ghost.runs >= old(ghost.runs)", "ghost.log == old(ghost.log) and ghost.setup_n == old(ghost.setup_n)", "not ghost.cluster_lock",
                   "implies(old(subset(ghost.collected, ghost.universe)), subset(ghost.collected, ghost.universe))",      # E-res
                   "Inv_handle(cluster) and cluster.g_promoted", "implies(result, not cluster._config.is_complete)",
                   "cluster._config.pipeline_stage_num == old(cluster._config.pipeline_stage_num)"],
-         raises={"Exception": {"ensures": ["ghost.log == old(ghost.log) and ghost.setup_n == old(ghost.setup_n)", HANDLE_EXC]}},     # HpcSubmitter.run: proved (RUN_HANDLE_OK)
-         modifies=["ghost.runs", "ghost.collected", "ghost.collected_failed", "ghost.files", "ghost.vfiles", "ghost.file_writes", "ghost.fs", "ghost.cluster_lock",
-                   "ghost.lock_marker_left", "ghost.sbatch_n", "Job.state", "Job.blocked_by", "JobStatus.hpc_job_ids", "JobStatus.batch_index", "JobStatus.version",
-                   "ClusterConfig.submitted_jobs", "ClusterConfig.completed_jobs", "ClusterConfig.version", "cluster._config_hash", "cluster._job_status_hash"],
-         note="HpcSubmitter(config, config_file, cluster, output).run() - HpcSubmitter.run is verified (C01/C05/C06/C11/C14); the constructor establishing its precondition from the persisted "
-              "state (J, loaded status, group domain) is the assumed link")
+         raises={"Exception": {"ensures": ["ghost.log == old(ghost.log) and ghost.setup_n == old(ghost.setup_n)", HANDLE_EXC], "frame": False}},
+         modifies=sorted(set(_run_mods() + list(_C["HpcSubmitter.__init__"].modifies))))
 record("JobRunner", file="jade/jobs/job_runner.py", bases=["JobManagerBase"], fields={
     "_intf": "Ref[HpcIntf]", "_node_id": "Opaque", "_intf_type": "Enum[HpcType]", "_batch_id": "Opaque", "_event_filename": "Opaque", "_event_logger": "Opt[Opaque]"})
 contract("JobRunner.__init__", kind="assumed", params=[("config", "Ref[JobConfiguration]"), ("output", "Opaque"), ("batch_id", "Opaque", "0")], returns="Ref[JobRunner]",
@@ -202,7 +245,9 @@ contract("JobSubmitter.submit_jobs", file=F,
          call_alias={"check_run_command": "check_run_command_setup", "run_command": "run_command_env"},
          requires=_C["JobSubmitter._handle_completion"].requires if False else
                   ["Inv_cfg(self._config)", "ghost.universe == ALLNAMES(self) and subset(ghost.collected, ghost.universe)", "not ghost.cluster_lock", "Inv_handle(cluster)", "cluster.g_promoted",
-                   "not cluster._config.is_complete"],
+                   "not cluster._config.is_complete",
+                   # what a submitter round needs from the loaded state (see ROUND_READY); established by Cluster.deserialize/create and JobSubmitter.load/create
+                   "ROUND_READY(self, cluster)", "J_COUNTS(cluster)"],
          ensures=[
              # C16: the setup command runs exactly when this is a new submission that configures one - once, with the documented variable, and
              # before any batch is handed to the scheduler
@@ -217,7 +262,7 @@ contract("JobSubmitter.submit_jobs", file=F,
                                                 HANDLE_EXC], "frame": False},
                  "Exception": {"ensures": [HANDLE_EXC], "frame": False},
                  "Timeout": {"ensures": [HANDLE_EXC], "frame": False}, "ConfigVersionMismatch": {"ensures": [HANDLE_EXC], "frame": False}},
-         modifies=["self._hpc", "self._results"] + [m for m in _C["JobSubmitter._handle_completion"].modifies if not m.startswith("self.")]
+         modifies=["self._hpc", "self._results"] + [m for m in _C["JobSubmitter._submit_to_hpc"].modifies] + [m for m in _C["JobSubmitter._handle_completion"].modifies if not m.startswith("self.")]
                   + ["ghost.setup_n", "ghost.setup_runs_seen", "ghost.last_cmd", "ghost.runs", "ghost.collected", "ghost.collected_failed", "ghost.files", "ghost.vfiles",
                      "ghost.file_writes", "ghost.fs", "ghost.sbatch_n", "ghost.popens", "ghost.rows", "Job.state", "Job.blocked_by", "JobStatus.hpc_job_ids",
                      "JobStatus.batch_index", "JobStatus.version", "ClusterConfig.submitted_jobs", "ClusterConfig.completed_jobs", "Registry.g_x",
